@@ -628,3 +628,34 @@ func genSelectors(c *vlib.Ctx) {
 		failOnce(c, "retry-missing", "retry:missing-block-no-error", "with the retryable client a sync that needs an unavailable block did not fail", nil)
 	}
 }
+
+// ---------------------------------------------------------------------------
+// the publisher's root changes while a head request (of some other client) is being
+// served; afterwards the queried head must be the publisher's current root, and syncing to
+// the queried head and to the same head given explicitly must agree
+
+func genHeadRace(c *vlib.Ctx) {
+	w, ch := adWorld(6)
+	ad := func(h int) CallJ { return CallJ{T: "ad", PubHead: h} }
+	race := func(during, after int) CallJ { return CallJ{T: "race", PubHead: during, Head: after} }
+	for _, seg := range []int64{-1, 2} {
+		for during := 1; during <= 4; during++ {
+			for _, after := range []int{during + 1, 6} {
+				cfg := defaultCfg
+				cfg.SegDepth = seg
+				run := func(calls ...CallJ) {
+					runScn(c, Scn{World: w, Cfg: cfg, Oracle: "adseq", Chain: ch, Calls: calls}, false)
+				}
+				explicit := CallJ{T: "ad", PubHead: after, Head: after, Resync: true}
+				// a fresh subscriber after the race: queried, then explicit, then queried again
+				run(race(during, after), ad(after), explicit, ad(after))
+				run(race(during, after), explicit, ad(after))
+				// an existing subscriber: it synced an older head before the publisher moved on
+				if during >= 2 {
+					run(ad(during-1), race(during, after), ad(after), explicit)
+					run(ad(during-1), ad(during-1), race(during, after), CallJ{T: "remove"}, ad(after), ad(6))
+				}
+			}
+		}
+	}
+}
